@@ -125,22 +125,30 @@ Definition encode_asc (a : asc) : res (list N) :=
   then Ok (pack (flush (asc_bits a)))
   else Err.
 
+(* The decoders are written once, over an abstract bit reader (state type St, Read, AccError() != nil),
+   and instantiated (a) with the bit-list reader above: the definitions every theorem is about and the
+   extracted model runs; (b) in C18TieProofs.v with the Go-level reader machine of C13Model
+   (read_plain: value/n/pos accumulator over the byte slice), proved to compute the same results. *)
+Section GenericReader.
+Variable St : Type.
+Variable rdf : nat -> St -> N * St.      (* br.Read(n) *)
+Variable errf : St -> bool.              (* br.AccError() != nil *)
+
 (* func getFrequency(br *bits.Reader) (frequency int, ok bool) *)
-Definition get_frequency (s : rstate) : option Z * rstate :=
-  let '(idx, s1) := rd 4 s in
+Definition get_frequency_g (s : St) : option Z * St :=
+  let '(idx, s1) := rdf 4 s in
   if idx =? 15 then
-    let '(f, s2) := rd 24 s1 in
-    if rerr s2 then (None, s2) else (Some (Z.of_N f), s2)
-  else if rerr s1 then (None, s1)
+    let '(f, s2) := rdf 24 s1 in
+    if errf s2 then (None, s2) else (Some (Z.of_N f), s2)
+  else if errf s1 then (None, s1)
   else (freq_of_index idx, s1).
 
 (* func DecodeAudioSpecificConfig(r io.Reader) returns (asc, error)
    Err = a non-nil error (the partially filled struct Go returns beside some errors is not
    observed).  Note: the accumulated reader error is NOT consulted after the channel / final
    3-bit reads, exactly as in the Go text. *)
-Definition decode_asc (data : list N) : res asc :=
-  let s0 := rinit data in
-  let '(aot, s1) := rd 5 s0 in
+Definition decode_asc_g (s0 : St) : res asc :=
+  let '(aot, s1) := rdf 5 s0 in
   let flags := if aot =? AAClc then Some (false, false)
                else if aot =? HEAACv1 then Some (true, false)
                else if aot =? HEAACv2 then Some (true, true)
@@ -148,25 +156,31 @@ Definition decode_asc (data : list N) : res asc :=
   match flags with
   | None => Err
   | Some (sbr, ps) =>
-      let '(fo, s2) := get_frequency s1 in
+      let '(fo, s2) := get_frequency_g s1 in
       match fo with
       | None => Err
       | Some f =>
-          let '(ch, s3) := rd 4 s2 in
+          let '(ch, s3) := rdf 4 s2 in
           if (aot =? HEAACv1) || (aot =? HEAACv2) then
-            let '(eo, s4) := get_frequency s3 in
+            let '(eo, s4) := get_frequency_g s3 in
             match eo with
             | None => Err
             | Some e =>
-                let '(aot2, s5) := rd 5 s4 in
+                let '(aot2, s5) := rdf 5 s4 in
                 if negb (aot2 =? AAClc) then Err
-                else let '(_, _) := rd 3 s5 in Ok (mkAsc aot ch f e sbr ps)
+                else let '(_, _) := rdf 3 s5 in Ok (mkAsc aot ch f e sbr ps)
             end
           else
             (* audioObjectType is AAClc here: the `!= AAClc` test cannot fire *)
-            let '(_, _) := rd 3 s3 in Ok (mkAsc aot ch f 0%Z sbr ps)
+            let '(_, _) := rdf 3 s3 in Ok (mkAsc aot ch f 0%Z sbr ps)
       end
   end.
+End GenericReader.
+
+(* notations, not definitions: the instantiated loop must stay syntactically the generic one applied
+   to the bit-list reader (a wrapper constant around a fixpoint on concrete fuel derails conversion) *)
+Notation get_frequency := (get_frequency_g rstate rd rerr).
+Definition decode_asc (data : list N) : res asc := decode_asc_g rstate rd rerr (rinit data).
 
 (* the supported domain: object type 2/5/29, 4-bit channel configuration, frequencies that fit the
    24-bit escape (table values included), extension frequency only with SBR, flags implied by the
@@ -230,56 +244,66 @@ Definition encode_adts (h : adts) : list N := pack (adts_bits h).
 (* startPattern == 0xf && layer == 0 on the second sync byte *)
 Definition is_sync2 (b : N) : bool := (N.shiftr b 4 =? 15) && (N.land (N.shiftr b 1) 3 =? 0).
 
+Definition ts_packet_size : nat := 188.
+
+Section GenericReaderAdts.
+Variable St : Type.
+Variable rdf : nat -> St -> N * St.
+Variable errf : St -> bool.
+
 (* the `for i := 0; i < tsPacketSize; i++` loop; fuel = iterations left.
    Result: (syncFound, sync2, offset, reader).  mpegID/layer/protectionAbsent are functions of the
    last sync2 and are only used when syncFound, so they are recomputed from it afterwards. *)
-Fixpoint sync_loop (fuel : nat) (s : rstate) (sync2 : N) (offset : Z) : bool * N * Z * rstate :=
+Fixpoint sync_loop_g (fuel : nat) (s : St) (sync2 : N) (offset : Z) : bool * N * Z * St :=
   match fuel with
   | O => (false, sync2, offset, s)
   | S f =>
       let '(sync1, s1, off1) :=
-        if negb (sync2 =? 255) then let '(v, s1) := rd 8 s in (v mod 256, s1, offset)
+        if negb (sync2 =? 255) then let '(v, s1) := rdf 8 s in (v mod 256, s1, offset)
         else (sync2, s, (offset - 1)%Z) in
       if sync1 =? 255 then
-        let '(v, s2) := rd 8 s1 in
+        let '(v, s2) := rdf 8 s1 in
         let sync2' := v mod 256 in
         if is_sync2 sync2' then (true, sync2', off1, s2)
-        else sync_loop f s2 sync2' (off1 + 2)%Z
-      else sync_loop f s1 sync2 (off1 + 1)%Z
+        else sync_loop_g f s2 sync2' (off1 + 2)%Z
+      else sync_loop_g f s1 sync2 (off1 + 1)%Z
   end.
 
-Definition ts_packet_size : nat := 188.
-
 (* the part of DecodeADTSHeader after the sync search (syncFound, no accumulated error) *)
-Definition decode_after_sync (sync2 : N) (offset : Z) (s : rstate) : res (adts * Z) :=
+Definition decode_after_sync_g (sync2 : N) (offset : Z) (s : St) : res (adts * Z) :=
   let mpeg_id := N.land (N.shiftr sync2 3) 1 in
   let layer := N.land (N.shiftr sync2 1) 3 in
   let protection_absent := N.land sync2 1 in
   if negb (layer =? 0) then Err
   else
     let hlen := if negb (protection_absent =? 1) then 9 else 7 in
-    let '(profile, s) := rd 2 s in
+    let '(profile, s) := rdf 2 s in
     let ot := u8 (profile + 1) in
-    let '(sfi, s) := rd 4 s in
-    let '(_, s) := rd 1 s in
-    let '(chan, s) := rd 3 s in
-    let '(_, s) := rd 4 s in
-    let '(flen, s) := rd 13 s in
+    let '(sfi, s) := rdf 4 s in
+    let '(_, s) := rdf 1 s in
+    let '(chan, s) := rdf 3 s in
+    let '(_, s) := rdf 4 s in
+    let '(flen, s) := rdf 13 s in
     let plen := u16 (u16 flen + 65536 - hlen) in
-    let '(bf, s) := rd 11 s in
-    let '(nrb, s) := rd 2 s in
+    let '(bf, s) := rdf 11 s in
+    let '(nrb, s) := rdf 2 s in
     if negb (nrb =? 0) then Err
     else
-      let s := if negb (protection_absent =? 1) then snd (rd 16 s) else s in
-      if rerr s then Err
+      let s := if negb (protection_absent =? 1) then snd (rdf 16 s) else s in
+      if errf s then Err
       else Ok (mkAdts mpeg_id ot (u8 sfi) (u8 chan) hlen plen (u16 bf), offset).
 
 (* func DecodeADTSHeader(r io.Reader) (header, offset int, err error) *)
-Definition decode_adts (data : list N) : res (adts * Z) :=
-  let '(found, sync2, offset, s) := sync_loop ts_packet_size (rinit data) 0 0%Z in
-  if rerr s then Err
+Definition decode_adts_g (s0 : St) : res (adts * Z) :=
+  let '(found, sync2, offset, s) := sync_loop_g ts_packet_size s0 0 0%Z in
+  if errf s then Err
   else if negb found then Err
-  else decode_after_sync sync2 offset s.
+  else decode_after_sync_g sync2 offset s.
+End GenericReaderAdts.
+
+Notation sync_loop := (sync_loop_g rstate rd).
+Notation decode_after_sync := (decode_after_sync_g rstate rd rerr).
+Definition decode_adts (data : list N) : res (adts * Z) := decode_adts_g rstate rd rerr (rinit data).
 
 (* headers Encode can express: MPEG-4 id, no CRC, 2-bit profile, 4/3/13/11-bit fields *)
 Definition adts_canonical (h : adts) : bool :=
